@@ -32,6 +32,25 @@ Theorem C19_block_starts_at_first_item :
 Proof. exact adj_try_block. Qed.
 Print Assumptions C19_block_starts_at_first_item.
 
+(* which block: the start offsets (available items of the scope, left to right: C19_starts_left_to_right) are
+   tried in order and the value comes from the FIRST one at which the group parses -- so repeating the group
+   yields one value per block in command-line order *)
+Theorem C19_first_start_wins :
+  forall ev orig width starts best v fin,
+    adj_outer ev orig width starts best = (ROk v, fin) ->
+    exists before start after best',
+      starts = before ++ start :: after /\
+      adj_try ev orig width start best' = AReturn v fin /\
+      (forall st, In st before -> exists b0 b1, adj_try ev orig width st b0 = ANext b1).
+Proof. exact adj_outer_first. Qed.
+Print Assumptions C19_first_start_wins.
+
+Theorem C19_starts_left_to_right :
+  forall s width i j a b,
+    nth_error (adj_starts s width) i = Some a -> nth_error (adj_starts s width) j = Some b -> i < j -> a < b.
+Proof. exact adj_starts_sorted. Qed.
+Print Assumptions C19_starts_left_to_right.
+
 (* the window handed to an adjacent command / trimmed for a group is a run of live items *)
 Theorem C19_window_live :
   forall s start,
@@ -53,6 +72,7 @@ Theorem C19_members_inscope :
     (forall n p a, ev_inscope (eval_flag env n p a)) /\
     (forall n mv ty adj, ev_inscope (eval_arg env n mv ty adj)) /\
     (forall mv ty pos help, ev_inscope (eval_pos mv ty pos help)) /\
+    (forall mv help check anywhere, ev_inscope (eval_any mv help check anywhere)) /\
     (forall ev c, ev_inscope ev -> ev_inscope (optional_body ev c)) /\
     (forall ev c m, ev_inscope ev -> ev_inscope (guard_body ev c m)) /\
     (forall ev f, ev_inscope ev -> ev_inscope (parse_body ev f)) /\
@@ -70,6 +90,7 @@ Proof.
   split; [intros; apply eval_flag_inscope|].
   split; [intros; apply eval_arg_inscope|].
   split; [intros; apply eval_pos_inscope|].
+  split; [intros; apply eval_any_inscope|].
   split; [intros; apply optional_inscope; assumption|].
   split; [intros; apply guard_inscope; assumption|].
   split; [intros; apply parse_inscope; assumption|].
